@@ -167,9 +167,7 @@ def semantic_check(case, r: Result, allow_index_error=False, total=False):
     env = {"ds": schema.build(case["data"]), "k0": 1}
     try:
         expect = pyeval.materialise(pyeval.evaluate(tree, env, total))
-    except RecursionError:
-        raise
-    except Exception:
+    except Exception:  # python itself cannot evaluate the original (also: recursion limit): nothing is required
         expect = None
         r.ref_error = True
     work = copy.deepcopy(tree)
